@@ -520,14 +520,25 @@ var _ utils.PriorityQueue
 //@ assume
 //@ modifies nothing
 
-// the header (index parameters): every field goes through binary.Read / binary.Write (complete reads), and the narrowing
-// conversions of save are lossless for parameters that fit 31 bits
+// the header (index parameters): every field goes through binary.Read / binary.Write (complete reads), the narrowing
+// conversions of save are lossless for parameters that fit 31 bits, and load accepts every header whose fields can be read
+// and whose selection mode is one save can write (0 simple, 1 heuristic): loading the index's own output never fails
 //@ spec cfgFits(c *hnswConfig) bool = c.searchAlgorithm >= 0 && c.searchAlgorithm <= 4294967295 && 0 - 2147483648 <= c.ef && c.ef < 2147483648 && 0 - 2147483648 <= c.efConstruction && c.efConstruction < 2147483648 && 0 - 2147483648 <= c.m && c.m < 2147483648 && 0 - 2147483648 <= c.mMax && c.mMax < 2147483648 && 0 - 2147483648 <= c.mMax0 && c.mMax0 < 2147483648
 //@ func (*index.hnswConfig).load
 //@ props C08
+//@ ghost reads int = 0
+//@ ghost failedReads int = 0
+//@ ghost algo uint32 = 0
 //@ at call Reader.Read
 //@ requires [C08 full-read] false
 //@ end
+//@ at call binary.Read
+//@ scope uint32Val
+//@ set algo = ite(reads == 0, uint32Val, algo)
+//@ set failedReads = ite(isnil($ret0), failedReads, failedReads + 1)
+//@ set reads = reads + 1
+//@ end
+//@ ensures [C08 a-readable-header-naming-a-defined-selection-mode-loads] failedReads == 0 && (algo == 0 || algo == 1) ==> isnil(ret)
 //@ requires [reader] this != nil && !isnil(r)
 //@ modifies fields(this)
 
